@@ -281,6 +281,39 @@ func checkC14(r *Run) {
 			return descgen.Rename(e, n+"bothkeys")
 		})
 	}
+	// several nullable embedded messages with list / map / message children in one message (L1 only: the shape is finding D3b at run time)
+	reqs = append(reqs, func() *descgen.Entry {
+		e := descgen.K6(2)
+		more := descgen.M("More", descgen.F("MoreTags", descgen.Rep()), descgen.F("MoreDict", descgen.MapOf()), descgen.F("MoreLeaf", descgen.MsgT("Leaf")))
+		other := descgen.M("Other", descgen.F("OtherList", descgen.Sc(ir.Int64), descgen.Rep()), descgen.F("OtherLeaves", descgen.MsgT("Leaf"), descgen.Rep()), descgen.F("OtherName"))
+		third := descgen.M("Third", descgen.F("ThirdDict", descgen.Sc(ir.Bool), descgen.MapOf()), descgen.F("ThirdLeaf", descgen.MsgT("Leaf"), descgen.NonNull()))
+		e.File.Messages[0].Fields = append(e.File.Messages[0].Fields, descgen.F("More", descgen.MsgT("More"), descgen.Embed()), descgen.F("Other", descgen.MsgT("Other"), descgen.Embed()), descgen.F("Third", descgen.MsgT("Third"), descgen.Embed()))
+		for i, fl := range e.File.Messages[0].Fields {
+			fl.Number = int32(i + 1)
+		}
+		e.File.Messages = append(e.File.Messages, more, other, third)
+		e.Cfg.Sort, e.Cfg.SortSet = false, true
+		return descgen.Rename(e, "k6cmany")
+	})
+	// several selected types that cannot be generated (each is skipped with a diagnostic; the rest must not vary)
+	reqs = append(reqs, func() *descgen.Entry {
+		e := descgen.K18()
+		for _, m := range e.File.Messages {
+			switch m.Name {
+			case "Aroot":
+				m.Fields = append(m.Fields, descgen.F("ZzWhen", descgen.TS()))
+			case "Croot":
+				m.Fields = append(m.Fields, descgen.F("ZzSpan", descgen.Dur()))
+			case "Wrapper":
+				m.Fields = append(m.Fields, descgen.F("ZzByNumber", descgen.MapOf(), descgen.KeyT(ir.Int32)))
+			}
+			for i, fl := range m.Fields {
+				fl.Number = int32(i + 1)
+			}
+		}
+		e.Cfg.TimeType, e.Cfg.DurationType = nil, nil
+		return descgen.Rename(e, "k18manyfail")
+	})
 	// options given through BOTH channels with different values: which one wins must not vary from run to run
 	for _, n := range []string{"k9", "k1"} {
 		n := n
